@@ -52,7 +52,7 @@ func runC02Seq(run *Run, seed int64, cfg c01Cfg, seq []accusation) (out []*c01Re
 		key = bytes.Repeat([]byte{9}, 32)
 	}
 	rig, err := NewRig(RigOpts{Seed: seed, Label: cfg.Label, Key: key, Compress: cfg.Compress, Spec: NodeSpec{Name: "V", IP: "10.9.9.9", Meta: []byte("meta0"), Mutate: func(cf *memberlist.Config) {
-		cf.ProbeInterval = time.Hour
+		cf.ProbeInterval = noProbe
 		cf.PushPullInterval = 0
 	}}})
 	if err != nil {
